@@ -60,7 +60,7 @@ def trees_for(rng, leaves, thorough):
             uniq.append(t)
     if not thorough:
         uniq = rng.sample(uniq, min(len(uniq), 60))
-    for _ in range(400 if thorough else 40):
+    for _ in range(3000 if thorough else 40):
         uniq.append(gen_prog.rand_tree(rng, 3, lambda: rng.choice(leaves)))
     return uniq
 
